@@ -44,3 +44,20 @@ let hdoc_line line =
      | HErr -> "err"
      | HUnmodelled -> "unmodelled")
   | _ -> failwith "hdoc: bad case"
+
+(* the word scanner on arbitrary text and the printer's notation for what it returns (Lex/Reprint.v).
+   Case: text(hex), written after a command name.  Output: skeleton, printed text (hex), skeleton again *)
+let rword_line line =
+  match String.split_on_char '\t' line with
+  | h :: _ ->
+    let rs = runes_of_string (string_of_hex h) @ [n_of_int 10] in
+    (match scan_word (nat_of_int (2 * List.length rs + 4)) rs [] with
+     | Some ([], _) -> "noarg"
+     | Some (w, rest) ->
+       let tail = " " ^ string_of_int (List.length rest) in
+       let p = print_parts w in
+       (match scan_word (nat_of_int (2 * List.length p + 6)) (p @ [n_of_int 10]) [] with
+        | Some (w2, _) -> sk_word w ^ " " ^ hexb (List.concat_map (fun r -> encode_rune r) p) ^ " " ^ sk_word w2 ^ tail
+        | None -> sk_word w ^ " " ^ hexb (List.concat_map (fun r -> encode_rune r) p) ^ " none" ^ tail)
+     | None -> "unmodelled")
+  | _ -> failwith "rword: bad case"
